@@ -109,6 +109,34 @@ theorem bfs_relabel (f : Nat → Nat) (hf : ∀ a b, f a = f b → a = b) (edges
     bfsOut (relabel f edges) (f r) = (bfsOut edges r).map (relabelE f) :=
   bfsOut_relabel hf edges r
 
+/-- The hypothesis is closed under renumbering too (companion of `arbo_perm`): an arborescence
+    renumbered by an injective map is an arborescence rooted at the renumbered root. -/
+theorem arbo_relabel {edges : List Edge} {r : Nat} (f : Nat → Nat) (hf : ∀ a b, f a = f b → a = b)
+    (A : Arbo edges r) : Arbo (relabel f edges) (f r) := by
+  have mem : ∀ e', e' ∈ relabel f edges → ∃ e ∈ edges, relabelE f e = e' := by
+    intro e' h; simpa [relabel] using h
+  have reach : ∀ x, Reach edges r x → Reach (relabel f edges) (f r) (f x) := by
+    intro x h
+    induction h with
+    | root => exact Reach.root
+    | step _ he ih =>
+      exact Reach.step ih (by
+        simp only [relabel, List.mem_map]
+        exact ⟨_, he, rfl⟩)
+  refine { nodup := ?_, noRootIn := ?_, uniqueParent := ?_, reach := ?_ }
+  · exact nodup_map_of_injOn (relabelE f) edges A.nodup
+      (fun a _ b _ h => relabelE_inj hf a b h)
+  · intro e' he' h
+    obtain ⟨e, he, rfl⟩ := mem e' he'
+    exact A.noRootIn e he (hf _ _ h)
+  · intro e1 h1 e2 h2 h
+    obtain ⟨a, ha, rfl⟩ := mem e1 h1
+    obtain ⟨b, hb, rfl⟩ := mem e2 h2
+    rw [A.uniqueParent a ha b hb (hf _ _ h)]
+  · intro e' he'
+    obtain ⟨e, he, rfl⟩ := mem e' he'
+    exact reach _ (A.reach e he)
+
 /-- non-vacuity: the suite's skeleton renumbered by n ↦ 2n+3 (injective) -/
 example : toposort (relabel (fun n => 2 * n + 3) [(2,3),(0,1),(1,2),(1,4)]) = some [1,2,3,0] := by
   rw [toposort_relabel _ (by intro a b h; omega)]; decide
